@@ -45,6 +45,9 @@ type OptPlan struct {
 	// ReadSampling: Options.ReadSamplingMultiplier (0 = default; small positive
 	// values make read-triggered compactions likely).
 	ReadSampling int `json:"rsm,omitempty"`
+	// FlushDelayMs: Options.FlushDelayDeleteRange and FlushDelayRangeKey in
+	// milliseconds (0 = Pebble's default: no delayed flush).
+	FlushDelayMs int `json:"fdelay,omitempty"`
 }
 
 // IterOp is one iterator operation.
